@@ -54,7 +54,12 @@ var (
 	ErrIsDir      = errors.New("is a directory")
 	ErrNotDir     = errors.New("not a directory")
 	ErrNotEmpty   = errors.New("directory not empty")
+	ErrDead       = errors.New("process killed")
 )
+
+// Dead makes every call fail without effect: the calling "process" has been killed and
+// only its deferred clean-up is still unwinding (which must not have any effect).
+var Dead bool
 
 // Node is a file or directory.
 type Node struct {
@@ -92,6 +97,7 @@ var (
 
 // Reset clears the model (called by each harness entry).
 func Reset() {
+	Dead = false
 	Nodes = nil
 	Events = nil
 	FailHook = nil
@@ -113,6 +119,10 @@ func now() time.Time {
 }
 
 func fail(op, path string) error {
+	vrt.Yield() // every file-system call is a scheduling point for harness threads
+	if Dead {
+		return ErrDead
+	}
 	if FailHook != nil {
 		return FailHook(op, path)
 	}
